@@ -879,3 +879,38 @@ func VerifC10RunLoopPanic() {
 	vassert(c10Count(evs, "h", "start", "G") == 1, "the graph's handler hears exactly one start for the graph")
 	vassert(c10Count(evs, "h", "error", "G") == 1 && c10Count(evs, "h", "end", "G") == 0, "and exactly one error (no ordinary end) for the graph")
 }
+
+// A handler designated twice to the same node - at the top level or inside a nested graph - still hears each execution
+// of that node once.
+func VerifC10DesignatedTwice() {
+	ctx := context.Background()
+	vcfg("fifo", 1)
+	vcfg("selectfirst", 1)
+	var evs []c10Ev
+	body := InvokableLambda(func(ctx context.Context, in map[string]any) (map[string]any, error) { return in, nil })
+	sub := NewGraph[map[string]any, map[string]any]()
+	_ = sub.AddLambdaNode("x", body, WithNodeName("X"))
+	_ = sub.AddEdge(START, "x")
+	_ = sub.AddEdge("x", END)
+	g := NewGraph[map[string]any, map[string]any]()
+	_ = g.AddLambdaNode("l", body, WithNodeName("L"))
+	_ = g.AddGraphNode("sub", sub, WithNodeName("SUB"))
+	_ = g.AddEdge(START, "l")
+	_ = g.AddEdge("l", "sub")
+	_ = g.AddEdge("sub", END)
+	r, err := g.Compile(ctx, WithGraphName("G"))
+	vassert(err == nil, "graph compiles")
+	h := &c10Rec{id: "h", evs: &evs}
+	var opt Option
+	unit := "L"
+	if vchoose("nested", 2) == 1 {
+		opt = WithCallbacks(h).DesignateNodeWithPath(NewNodePath("sub", "x"), NewNodePath("sub", "x"))
+		unit = "X"
+	} else {
+		opt = WithCallbacks(h).DesignateNode("l", "l")
+	}
+	_, rerr := r.Invoke(ctx, map[string]any{"in": 1}, opt)
+	vassert(rerr == nil, "run succeeds")
+	vassert(c10Count(evs, "h", "start", unit) == 1 && c10Count(evs, "h", "end", unit) == 1, "a handler designated twice to one node hears its execution once")
+	vassert(len(evs) == 2, "and nothing else")
+}
